@@ -7,7 +7,10 @@ from .spgref import Recipe, CLASSES, entropy_close, expected_entropy, f32_from_b
 W = 1 << 32
 
 POOL = ["abc", "357", "ABC", "!@", "é", "ñü", "€", "😀", "日本", "aA1!", "aab", "0O1Il5S", "xyz", "-_", "0123456789",
-        "q", "Zz", "ß€😀", "a", "1", "*", "abcdefghijklmnopqrstuvwxyz", "éèêë", "09", "lI", "S5", "あいう", "aé€😀", ""]
+        "q", "Zz", "ß€😀", "a", "1", "*", "abcdefghijklmnopqrstuvwxyz", "éèêë", "09", "lI", "S5", "あいう", "aé€😀", "",
+        # characters a careless loop drops or merges: the replacement character itself, blanks, a combining mark, characters outside
+        # the BMP, a zero-width joiner
+        "xy\ufffd", "\ufffd", " ", "\t ", "\u00a0", "a b", "e\u0301", "𝓍𝒳", "a\u200db"]
 
 DEFAULT_BUDGET = (200, 1, 1000000000)
 # T = 200 only with the default limit (the model decides it through the proved guard band); other limits with small T
@@ -336,6 +339,9 @@ def resplit(rng, r):
     same every other field): a different recipe, run right after the original in the same process, so that anything the
     library remembers between calls under a key that does not distinguish the two shows up"""
     sets = [x for x in r.require_sets if x]
+    if len(sets) >= 2 and rng.random() < 0.3:
+        # recipes that PRINT alike ({"a","b"} and {"a b"} under %v) but differ
+        return Recipe(r.length, r.allow, r.require, r.exclude, r.allow_chars, [" ".join(sets)], r.exclude_chars)
     joined = "".join(sets)
     if len(joined) < 2:
         return None
